@@ -55,6 +55,22 @@ Example openapi_frontend_rejections :
   src_valid_doc "openapi" sOA "Root" dOA_bad2 = false /\ ir_accepts_n_doc (parse_ctx_oa sOA) "p" "Root" dOA_bad2 = false.
 Proof. vm_compute. repeat split; reflexivity. Qed.
 
+(* an alias cycle and a numeric enum value written with an exponent: outside schema_aliases_resolve / schema_bounds_small,
+   inside the domain of parse_openapi_preserves_acceptance_partial_strong; the two sides agree *)
+Definition sCY : src_schema :=
+  mkSrc "p" "Root"
+    [("Root", SStruct [mkSField "c" (SRef "X") false false false; mkSField "e" (SEnum [JNum 1 2; JNum 7 0]) false false false;
+                       mkSField "f" (SFloat "float64" (Some (123456789, -12)%Z) None None None) false false false]);
+     ("X", SRef "Y"); ("Y", SRef "X")].
+Example openapi_alias_cycle_agrees :
+  src_wf_oa sCY = true /\ schema_aliases_resolve sCY = false /\ schema_bounds_small sCY = false /\
+  src_valid_doc "openapi" sCY "Root" (JObj [("c", JBool true)]) = false /\
+  ir_accepts_n_doc (parse_ctx_oa sCY) "p" "Root" (JObj [("c", JBool true)]) = false /\
+  src_valid_doc "openapi" sCY "Root" (JObj [("e", JNum 100 0); ("f", JNum 1 0)]) = true /\
+  ir_accepts_n_doc (parse_ctx_oa sCY) "p" "Root" (JObj [("e", JNum 100 0); ("f", JNum 1 0)]) = true /\
+  src_valid_doc "openapi" sCY "X" (JBool true) = false /\ ir_accepts_n_doc (parse_ctx_oa sCY) "p" "X" (JBool true) = false.
+Proof. vm_compute. repeat split; reflexivity. Qed.
+
 (* ---------- O4 ---------- *)
 (* Root { u: oneOf [#A, #B], discriminator propertyName "kind", no mapping }; `kind` is a plain required string *)
 Definition sDU : src_schema :=
